@@ -1,11 +1,39 @@
 (** C15 — Fragment extraction and composition bookkeeping conserve atoms and electrons.
-    Property theorems only; each is closed by [exact] of a lemma from Proofs/Fragment.v / Proofs/Formula.v.
+    Property theorems only; each is closed by [exact] of a lemma from Proofs/Fragment.v / FragmentMore.v / Formula.v.
     Models: Model/Fragment.v ([get_fragment] = the keyword arguments Molecule.get_fragment hands to the constructor,
     [sub_molecule] = that followed by the constructor's charge / multiplicity validation (the C05 model [fill]),
-    [nelectrons], [terms_from] = the terms of nuclear_repulsion_energy) and Model/Formula.v. *)
+    [get_fragment_pub] / [sub_molecule_pub] / [nelectrons_pub] / [nre_terms_pub] = the public entry points with their
+    argument glue and generated defaults (Gen/FragGlue.v), [terms_from] = the terms of nuclear_repulsion_energy) and
+    Model/Formula.v ([formula], [order_formula], [mol_formula] = Molecule.get_molecular_formula).
+
+    CLAUSE MAP (statement / quantifier of C15 in properties.jsonl -> theorems here)
+    1. the sub-molecule contains exactly the atoms of the chosen fragments, same symbols / masses / coordinates
+         -> C15_atoms_conserved_grouped, C15_atoms_conserved_ungrouped (what the constructor is handed),
+            C15_fragment_bookkeeping_unconditional (the validated molecule carries those atoms and fragments);
+            through the public call (index or list, ghost absent, defaults): C15_public_defaults, C15_public_glue,
+            C15_public_sub_molecule.  orient=True: the constructor receives the same arguments (C15_public_glue, 4th part);
+            the frame itself is C16; corr + oracle (pair distances).
+    2. real ones first, or in original order      -> same two theorems (order of d_atoms; Forall2 over the new fragments)
+    3. ghost fragments flagged ghost, neutral singlets; real fragments keep (c, m); totals from the real fragments
+         -> C15_atoms_conserved_* (flags, d_fc, d_fm, d_cm), C15_fragment_bookkeeping (+ _unconditional),
+            C15_electrons_conserved_ungrouped (2nd, 3rd part: totals of the order-preserving path = sum / high-spin over the
+            real-selected fragments), C15_subsystem_validates_grouped / _ungrouped (the constructor accepts).
+    4. electron counts = real nuclear charges minus the charge, whole and per fragment, additive
+         -> C15_electrons_per_fragment, C15_electrons_additive, C15_nelectrons_ifr (the ifr argument, IndexError);
+            conservation through extraction: C15_electrons_conserved_grouped, _grouped_per_fragment, _ungrouped.
+    5. nuclear repulsion: real nuclei only, invariant under rigid motion and atom reordering
+         -> C15_nre_real_only, C15_nre_rigid_invariant, C15_nre_reorder_invariant, C15_nre_sum_invariant (for every atom
+            list, hence for the whole molecule and for a fragment: C15_nre_ifr); the float sum against the exact terms:
+            C15_nre_inv_sqrt_enclosure + corr.  The square root itself is outside the model.
+    6. the formula reports exactly the element counts in alphabetical / Hill order
+         -> C15_formula_counts, C15_formula_ordered, C15_formula_parse_roundtrip, C15_title_wellformed, C15_formula_ext,
+            C15_order_formula_consistent, C15_supported_orders (the generated list of order names), C15_molecule_formula
+            (Molecule.get_molecular_formula with its defaults).
+    Scope (documented behaviour, not a finding): a real selection un-ghosts parent ghost atoms; fractional charges are
+    outside the model. *)
 From Coq Require Import ZArith QArith List String Bool Permutation.
-Require Import QV.Common.Outcome QV.Common.HFList QV.Model.ChgMult QV.Model.Fragment QV.Proofs.Fragment
-               QV.Model.Formula QV.Proofs.Formula.
+Require Import QV.Common.Outcome QV.Common.HFList QV.Model.ChgMult QV.Gen.FragGlue QV.Model.Fragment QV.Proofs.Fragment
+               QV.Model.Formula QV.Proofs.Formula QV.Proofs.FragmentMore.
 Import ListNotations.
 Open Scope Z_scope.
 
@@ -150,6 +178,78 @@ Theorem C15_order_formula_consistent : forall o o' syms name,
   order_formula (formula o' syms) name = Ok (formula o syms).
 Proof. exact order_formula_of_formula. Qed.
 
+(** ---- wave 3 ---- *)
+(** The bookkeeping with no side condition: get_fragment always hands over one charge and one multiplicity per fragment. *)
+Theorem C15_fragment_bookkeeping_unconditional : forall p real ghost group q,
+  sub_molecule p real ghost group = Ok q ->
+  exists d, get_fragment p real ghost group = Ok d /\ contiguous d = true
+    /\ p_atoms q = d_atoms d /\ p_frags q = d_frags d /\ p_fc q = d_fc d /\ p_fm q = d_fm d
+    /\ p_c q = zsum (p_fc q)
+    /\ match d_cm d with
+       | Some (c, m) => p_c q = c /\ p_m q = m
+       | None => p_m q = 1 + zsum (map (fun m => m - 1) (p_fm q))
+       end.
+Proof. exact sub_molecule_bookkeeping_full. Qed.
+
+(** Electrons are conserved by extraction: the sub-molecule has the electrons of the real-selected fragments (all their
+    nuclei counted, minus their charges); ghost-selected fragments contribute none.  With no parent ghost atoms inside the
+    real selection this is the sum of the parent's per-fragment counts. *)
+Theorem C15_electrons_conserved_grouped : forall p real ghost q,
+  sub_molecule p real ghost true = Ok q -> nelectrons q = zsum (map (fun f => znuc p f - fc_at p f) real).
+Proof. exact electrons_conserved_grouped. Qed.
+Theorem C15_electrons_conserved_grouped_per_fragment : forall p real ghost q, partition_ok p -> Forall (all_real p) real ->
+  sub_molecule p real ghost true = Ok q -> nelectrons q = zsum (map (nelectrons_frag p) real).
+Proof. exact electrons_conserved_grouped_frag. Qed.
+(** group_fragments=False: the same, and the totals the constructor settles on are formed from the real-selected fragments. *)
+Theorem C15_electrons_conserved_ungrouped : forall p real ghost q,
+  disjoint_frags p -> (forall i, In i (List.concat (p_frags p)) -> (i < List.length (p_atoms p))%nat) ->
+  sub_molecule p real ghost false = Ok q ->
+  nelectrons q = zsum (map (fun f => znuc p f - fc_at p f) (real_chosen p real ghost))
+  /\ p_c q = zsum (map (fc_at p) (real_chosen p real ghost))
+  /\ p_m q = 1 + zsum (map (fun f => fm_at p f - 1) (real_chosen p real ghost)).
+Proof. exact electrons_conserved_ungrouped. Qed.
+
+(** The public entry point Molecule.get_fragment(real, ghost=None, orient=False, group_fragments=True): defaults (generated
+    from the signature), index-or-list arguments, and `orient` reaching only the constructor. *)
+Theorem C15_public_defaults : forall p real,
+  get_fragment_pub p real None None None = obind (get_fragment p (sel_list real) [] true) (fun d => Ok (d, false)).
+Proof. exact get_fragment_pub_defaults. Qed.
+Theorem C15_public_glue : forall p (i : nat) orient group,
+  (forall ghost, get_fragment_pub p (SInt i) ghost orient group = get_fragment_pub p (SList [i]) ghost orient group)
+  /\ (forall real, get_fragment_pub p real (Some (SInt i)) orient group = get_fragment_pub p real (Some (SList [i])) orient group)
+  /\ (forall real, get_fragment_pub p real None orient group = get_fragment_pub p real (Some (SList [])) orient group)
+  /\ (forall r g o, match get_fragment_pub p r g o group, get_fragment_pub p r g None group with
+                    | Ok (d, _), Ok (d', _) => d = d'
+                    | Err e, Err e' => e = e'
+                    | _, _ => False
+                    end).
+Proof. exact get_fragment_pub_glue. Qed.
+Theorem C15_public_sub_molecule : forall p real ghost group,
+  sub_molecule_pub p real ghost group = sub_molecule p (sel_list real) (ghost_list ghost) (match group with Some b => b | None => true end).
+Proof. exact sub_molecule_pub_spec. Qed.
+
+(** nelectrons(ifr) / nuclear_repulsion_energy(ifr). *)
+Theorem C15_nelectrons_ifr : forall p, partition_ok p ->
+  nelectrons_pub p None = Ok (zsum (map zeff (p_atoms p)) - p_c p)
+  /\ (forall k, (k < List.length (p_frags p))%nat ->
+        nelectrons_pub p (Some k) = Ok (zsum (map (fun i => zeff (atom_at p i)) (frag_at p k)) - fc_at p k))
+  /\ (forall k, (List.length (p_frags p) <= k)%nat -> nelectrons_pub p (Some k) = Err PyIndexError).
+Proof. exact nelectrons_pub_spec. Qed.
+Theorem C15_nre_ifr : forall p,
+  nre_terms_pub p None = Ok (terms_from [] (p_atoms p))
+  /\ (forall k, (k < List.length (p_frags p))%nat -> nre_terms_pub p (Some k) = Ok (terms_from [] (map (atom_at p) (frag_at p k)))).
+Proof. exact nre_terms_pub_spec. Qed.
+
+(** The generated list of supported order names accepts exactly what the model's parse_order accepts; and
+    Molecule.get_molecular_formula with its (generated) defaults is the alphabetical formula of the molecule's symbols. *)
+Theorem C15_supported_orders : forall s, order_supported s = true <-> exists o, parse_order s = Ok o.
+Proof. exact order_supported_iff. Qed.
+Theorem C15_molecule_formula : forall syms c m,
+  mol_formula syms c m None None = Ok (formula Alphabetical syms)
+  /\ (forall order b, (b = Some false \/ b = None \/ (c = 0 /\ m = 1)) -> mol_formula syms c m (Some order) b = formula_from_symbols syms order)
+  /\ formula_from_symbols syms mffs_default_order = Ok (formula Alphabetical syms).
+Proof. exact mol_formula_spec. Qed.
+
 (** Non-vacuity: He | @Ne H (+1) | Li O (-1); extraction of ([2,0] real, [1] ghost) in both paths. *)
 Definition mk (s : string) (z : Z) (x y zc : Z) (r : bool) : atom :=
   {| a_sym := s; a_Z := z; a_mass := inject_Z z; a_x := inject_Z x; a_y := inject_Z y; a_z := inject_Z zc; a_real := r |}.
@@ -198,6 +298,20 @@ Proof.
     (split; [repeat split; try (vm_compute; congruence); try (vm_compute; reflexivity); repeat constructor; vm_compute; congruence|repeat constructor]).
 Qed.
 
+Example C15_ex_wave3 :
+  (exists q, sub_molecule ex_p [2; 0]%nat [1]%nat true = Ok q /\ nelectrons q = 14
+             /\ zsum (map (fun f => znuc ex_p f - fc_at ex_p f) [2; 0]%nat) = 14)
+  /\ real_chosen ex_p [2; 0]%nat [1]%nat = [0; 2]%nat
+  /\ get_fragment_pub ex_p (SInt 2) None None None = obind (get_fragment ex_p [2]%nat [] true) (fun d => Ok (d, false))
+  /\ nelectrons_pub ex_p (Some 3%nat) = Err PyIndexError /\ nelectrons_pub ex_p (Some 1%nat) = Ok 0
+  /\ mol_formula ["h"; "C"; "H"; "O"]%string 1 2 None (Some true) = Ok "2^CH2O+"%string
+  /\ mol_formula ["h"; "C"; "H"; "O"]%string (-2) 1 (Some "HILL"%string) (Some true) = Ok "CH2O--"%string
+  /\ order_supported "Hill" = true /\ order_supported "iupac" = false.
+Proof.
+  split; [eexists; split; [vm_compute; reflexivity|split; vm_compute; reflexivity]|].
+  repeat split; vm_compute; reflexivity.
+Qed.
+
 Print Assumptions C15_atoms_conserved_grouped.
 Print Assumptions C15_atoms_conserved_ungrouped.
 Print Assumptions C15_fragment_bookkeeping.
@@ -216,3 +330,14 @@ Print Assumptions C15_formula_parse_roundtrip.
 Print Assumptions C15_title_wellformed.
 Print Assumptions C15_formula_ext.
 Print Assumptions C15_order_formula_consistent.
+Print Assumptions C15_fragment_bookkeeping_unconditional.
+Print Assumptions C15_electrons_conserved_grouped.
+Print Assumptions C15_electrons_conserved_grouped_per_fragment.
+Print Assumptions C15_electrons_conserved_ungrouped.
+Print Assumptions C15_public_defaults.
+Print Assumptions C15_public_glue.
+Print Assumptions C15_public_sub_molecule.
+Print Assumptions C15_nelectrons_ifr.
+Print Assumptions C15_nre_ifr.
+Print Assumptions C15_supported_orders.
+Print Assumptions C15_molecule_formula.
